@@ -1142,6 +1142,12 @@ def gen_film(tier):
         for rot in rots:
             for down in (False, True):
                 yield tables_case([FILM_EEE], three_curves(), three_chans(rot), n=n, down=down, fpr=fpr)
+    # channel / curve names a LIS file may hold that are awkward inside an SVG (the plot names each curve in a comment and a legend)
+    for name in ('E---', '----', 'A-B', 'C--D', '-', 'A&B', '<GR>', 'A"B', "A'B"):
+        for rot in (0, 3):
+            pres = [[name, name, 'T1', 'LLIN', '1', 'WRAP', 0.0, 150.0, None], ['GR', 'GR', 'T3', 'LDAS', '1', 'SHIF', 150.0, 0.0, None]]
+            chans = [[name, 'GAPI', SHAPES[rot], stored68(0.0), stored68(150.0), False], ['GR', 'GAPI', SHAPES[rot + 1], stored68(0.0), stored68(150.0), False]]
+            yield tables_case([FILM_EEE], pres, chans)
 
 
 def format_channels(uid, lis):
